@@ -12,7 +12,7 @@ GROUPS = [
     Group(name="C19/write16[bounded]", unity="C19/u_util.cpp", entry="h_write", functions=[("UtilContext::write16", U, "harness, bounded")],
           defines=["WIDTH=2"], unwind=11, checks=CH, timeout=900, bounded="command 'dd d dd' with symbolic decimal digits; both byte orders"),
 ]
-GROUPS += [g for g in _c05.GROUPS if "Memory.write16" in g.name or "Memory.write1[" in g.name]
+GROUPS += [g for g in _c05.GROUPS if "Memory.write16" in g.name or "Memory.write1[" in g.name or "MemoryPage" in g.name]
 LEVEL = "other"
 EXPLANATION = ("Bounded model checking (CBMC, complete unwinding for the stated string lengths) of the real command parsers and write commands, plus the bounded Memory "
                "byte-map/16-bit round-trip checks shared with C05; strings are unbounded in the tool, so no unbounded proof is claimed.")
